@@ -4,4 +4,8 @@ go 1.22
 
 require github.com/avfs/avfs v0.0.0
 
+<<<<<<< HEAD
 replace github.com/avfs/avfs => /tmp/rw-wrap
+=======
+replace github.com/avfs/avfs => /tmp/rw-basepath
+>>>>>>> agent/basepath
